@@ -352,6 +352,64 @@ def rule_r4(chk, db, conf):
     chk.floor("R4", n, 10, "(bucket, key) path constructions in the backend's S3 methods")
 
 
+FIXED_WIDTH_TYPES = ("uuid::Uuid",)
+REMOVERS = ("remove_file", "remove_dir", "remove_dir_all")
+
+
+def rule_r5(chk, db):
+    """bookkeeping files in the root are selected for removal by a name prefix only if the prefix is unambiguous: it ends in literal text (a
+    delimiter) or in a fixed-width value (a UUID).  A prefix that ends in a variable-length value (`.bucket-<b64(name)>`) also matches the
+    files of every other bucket / key whose encoded name merely starts with it."""
+    from .. import fmtspec, guards
+    n = 0
+    for b in fscore.fs_bodies(db):
+        if not any(short(callee_def(t)) in REMOVERS for _, t in b.calls()):
+            continue
+        acs = None
+        for bi, t in b.calls():
+            if short(callee_def(t)) not in REMOVERS:
+                continue
+            for f in guards.dominating_facts(b, bi):
+                if f[0] != "call" or not f[1].endswith("::starts_with") or f[2] is not True:
+                    continue
+                st = b.blocks[f[3]]["term"]
+                if len(st["args"]) < 2:
+                    continue
+                n += 1
+                sl = flow.backward(b, st["args"][1], at=f[3])
+                if acs is None:
+                    acs = fmtspec.arguments_calls(b)
+                mine = [a for a in acs if any(cb == a["bi"] for cb, _, _ in sl.calls)]
+                why = None
+                for a in mine:
+                    pieces = a["pieces"]
+                    if not pieces:
+                        why = "its format template cannot be read"
+                        continue
+                    last = pieces[-1]
+                    if last[0] == "lit":
+                        continue
+                    kind, vop, _ = a["args"][last[1]] if last[1] < len(a["args"]) else (None, None, None)
+                    root = None
+                    if vop is not None:
+                        ch = flow.resolve_chain(b, vop) or []
+                        root = ch[-1][0] if ch else None
+                        # through the argument tuple of format_args!
+                        pl = flow.op_place(vop)
+                        if pl is not None:
+                            from . import c14
+                            r2 = c14._root_local(b, vop)
+                            root = r2 if r2 is not None else root
+                    ty = b.locals[root] if root is not None and root < len(b.locals) else "?"
+                    if not any(x in ty for x in FIXED_WIDTH_TYPES):
+                        why = "it ends in a value of type `%s`, whose text has no fixed length" % ty.replace("&", "")
+                chk.verdict(why is None, "R5", "prefix-selection@%s#%d" % (short(db.root_of(b).name), bi), b.loc(f[3]),
+                            "files are removed when their name starts with a prefix, but %s: the files of another bucket / key whose encoded name begins "
+                            "with the same characters are removed as well" % why)
+    chk.stats["prefix_selections"] = n
+    chk.floor("R5", n, 1, "removals selected by a name prefix")
+
+
 def run(chk, db, tier):
     conf = fscore.confining_fns(db)
     chk.stats["confining_functions"] = sorted(short(n) for n in conf)
@@ -364,6 +422,8 @@ def run(chk, db, tier):
     chk.rule("R4", "one path, one address: a (bucket, key) path is built from the request's own bucket and key or from the copy source's, never mixed")
     chk.guard("R4", rule_r4, db, conf)
     chk.guard("R3", rule_r3, db, conf)
+    chk.rule("R5", "bookkeeping files are selected for removal by a prefix only if it ends in literal text or a fixed-width value")
+    chk.guard("R5", rule_r5, db)
     # prerequisite: the backend relies on bucket names / keys having passed the adapter's validation in both addressing styles (decided for C12)
     from . import c12
     from ..report import Sub
